@@ -8,6 +8,9 @@ def run(rep, tier, seed):
     feed(rep, linalg_checks.c08_all, 8000 + seed, tier, 'factorization residual contracts',
          'qr (square, tall, wide), qr_full, cholesky, lu (with and without row pivoting), eigh (distinct and exactly repeated eigenvalues of A_0 with splitting at order 1), eig (D<=2), svd: defining equations as polynomial identities mod t^D with products formed by bounded/polyarith.py, triangular/orthogonality structure, ordering, zeroth coefficient equal to the NumPy/SciPy factorization; different base matrices per direction, higher coefficients dense random, linear-only (A_0 + t A_1 with all higher orders exactly zero), with a gap (A_1 = 0) and constant',
          'sizes <= 4, D <= 6, P <= 2', lambda c: ('factorization:%s' % c['fn'], str(c.get('shape', c.get('n', ''))) + str(c.get('eigenvalues', '')) + str(c.get('pivot', ''))))
+    feed(rep, linalg_checks.c08_scaled, 8100 + seed, tier, 'scale covariance of the factors',
+         'qr, qr_full, cholesky, lu of s*A for s in {1e-9, 1e-11, 1e6} against the scaled factors of A (relative comparison): regularity (full column rank, positive definiteness, non-singularity) does not depend on the scale, so an absolute rank / pivot threshold inside a kernel shows here',
+         'sizes <= 4, D <= 4, P <= 2', lambda c: ('factorization:%s' % c['fn'], str(c.get('shape', c.get('n', ''))) + ' s=%g' % c['scale']))
     rep.extra['explanation'] = 'the kernels interleave LAPACK calls, Hadamard masks and data-dependent block bookkeeping; no contract within reach of the SMT back end expresses triangular-matrix algebra or eigen-perturbation theory (DESIGN 9, C08): bounded residual contracts on the real functions instead'
     rep.assume('base-point factorizations are LAPACK/SciPy (A5)', 'tolerance 1e-8 relative')
     return 0
